@@ -66,12 +66,15 @@ PROPS = {
                     "evaluated on the observed tables per compressed message); text payloads are restricted to valid UTF-8 (invalid text is refused: "
                     "c12_invalid_text_not_delivered) and ReadLimit is 0 in c12_roundtrip; the theorem is over the driver's appWrite sequence; the "
                     "upgrade hand-off (101 response and first frames in one read) is covered by the correspondence and an oracle, not by a theorem; the "
-                    "little-endian word load/xor/store = bytewise xor step of maskXOR is trusted and checked by the c12-mask oracle (all lengths 0..300)",
+                    "little-endian word load/xor/store = bytewise xor step of maskXOR is trusted and checked by the c12-mask oracle (all lengths 0..300); "
+                    "opening handshake (Model/WsHandshake.lean: Upgrader.commCheck/commResponse, Dialer request/validation, newConn): structured "
+                    "requests/responses with canonical header keys (HTTP syntax is C06-C09), SHA-1 is a parameter observed per case, the origin hook's "
+                    "verdict is an input; token lists are read by the model's scanner and compared with an independent reading by the oracle",
             "technique": "Lean 4 proof (induction over frame and segment lists) + differential correspondence"},
         "lean": ["NbioVerif.Properties.C12"], "drivers": ["wsdrv"], "harness": ["hws"],
         "facts": [ws_facts],
-        "runs": [_run(["werr", "wire", "recv", "rerr", "back", "berr", "err", "codec"])],
-        "oracles": ["c12-"],  # c12-roundtrip, c12-mask, c12-trunc
+        "runs": [_run(["werr", "wire", "recv", "rerr", "back", "berr", "err", "codec", "rx", "wx", "proto", "resp", "status", "req", "srx", "swx", "crx", "cwx", "serr"])],
+        "oracles": ["c12-"],  # c12-roundtrip, c12-mask, c12-trunc, c12-handshake
         "rule": "case = message program on two back-to-back conns (role, compression level, frame limit, message limit, segmentation style) or a "
                 "frame stream fed to Parse, or a maskXOR sweep; distinct by hash of (configuration class, per-op outcome classes); non-trivial iff "
                 "something was delivered, buffered or refused",
